@@ -11,6 +11,7 @@ Line-protocol driver for the C02 interleaving model (Model/VersionSet.lean).
                          (`at=blocked`: its next step needs the version-set mutex / compacting flag);
                          +j<k>: jobs that were blocked and were released by this step, run next
   spawn flush k:t k:t .. | spawn compact | spawn rollup f f .. | spawn delobs
+  rollupjob              the real family.rollup() with no target store (nothing rolled up) + its cleanup
   par j<a> j<b> ..       the commits of these jobs run concurrently (released together, unscheduled)
   cleanup f f ..         storeCache.Cleanup closed exactly these entries
 Every answer is `<result> | <state>`; unknown or ill-formed lines answer `bad-op`.
@@ -30,7 +31,11 @@ structure D where
   readers : List (Nat × Nat)   -- reader name ↦ snapshot id
   ok : Bool                    -- init seen
 
-def D.empty : D := { cfg := { recheck := Generated.C02.removeVersionRechecksRef, cloneLocked := Generated.C02.commitCloneUnderLock }, st := St.init 0 0, readers := [], ok := false }
+def codeCfg0 : Cfg :=
+  { recheck := Generated.C02.removeVersionRechecksRef, cloneLocked := Generated.C02.commitCloneUnderLock,
+    allocLocked := Generated.C02.allocUnderCommitLock }
+
+def D.empty : D := { cfg := codeCfg0, st := St.init 0 0, readers := [], ok := false }
 
 def sortedNat (l : List Nat) : List Nat := sortNat l
 def dedup (l : List Nat) : List Nat := l.foldr (fun x acc => if acc.contains x then acc else x :: acc) []
@@ -110,10 +115,10 @@ def step' (d : D) (ws : List String) : D × String :=
     match rest.mapM String.toNat? with
     | some [v0, f0, th, ro] =>
       answer { cfg := { recheck := Generated.C02.removeVersionRechecksRef, cloneLocked := Generated.C02.commitCloneUnderLock,
-                        threshold := th, rollupOn := ro == 1 },
+                        allocLocked := Generated.C02.allocUnderCommitLock, threshold := th, rollupOn := ro == 1 },
                st := St.init v0 f0, readers := [], ok := true } "ok"
-    | some [v0, f0, th, ro, rc, cl] =>
-      answer { cfg := { recheck := rc == 1, cloneLocked := cl == 1, threshold := th, rollupOn := ro == 1 },
+    | some [v0, f0, th, ro, rc, cl, al] =>
+      answer { cfg := { recheck := rc == 1, cloneLocked := cl == 1, allocLocked := al == 1, threshold := th, rollupOn := ro == 1 },
                st := St.init v0 f0, readers := [], ok := true } "ok"
     | _ => (d, "bad-op")
   | _ =>
@@ -180,6 +185,15 @@ def step' (d : D) (ws : List String) : D × String :=
           answer d2 ("at=" ++ "+".intercalate rs)
         else (d, "bad-op")
     | _, _ => (d, "bad-op")
+  | ["rollupjob"] =>
+    -- family.rollup() whose targets are all skipped / failing: commits nothing, then its deferred
+    -- deleteObsoleteFiles (run to its end, unscheduled)
+    match step d.cfg d.st (.spawn .delObs []) with
+    | some s1 =>
+      let j := d.st.nJob
+      let s' := (List.range 200).foldl (fun s _ => (runJob d.cfg s j 64).1) s1
+      answer { d with st := s' } "ok"
+    | none => (d, "bad-op")
   | "par" :: ts =>
     -- commits released together: their critical sections are serialised by the version-set mutex;
     -- the resulting state does not depend on the order (flushes / rollup-done commits only)
